@@ -25,4 +25,10 @@ CHECKS = {
         "assumptions": ["NTS packets are generated to fit nts.MaxPacketLen (oversize requests belong to C11)", "NTS-KE AEAD records carry exactly one algorithm id (ntske.Data has room for one)"],
         "timeout_quick": 300, "timeout_thorough": 1500,
     },
+    "C01": {
+        "pkg": "c01",
+        "rule": "rapid-generated configurations and multi-round source histories driving the real sync.Run in a synctest bubble.",
+        "assumptions": ["the system clock and the clock discipline are replaced by a scripted clock (Drift = rate x interval, or unknown) and a recorder", "NaN impact factors are not generated (outside 'admissible configurations')", "offsets of magnitude >= 2^62 are generated but exempt from the exact reference model (only the bound is asserted)"],
+        "timeout_quick": 400, "timeout_thorough": 1800,
+    },
 }
